@@ -98,7 +98,18 @@ def orientation_rule(ctx, rule):
         raise AnalysisError(f"{C}: `self.plane_axes = ...` not found")
     # sign of y relative to sin(angle) and kind of x, from l()
     loc = {}
-    for n in ast.walk(l):
+    # l() and the helper methods of the class it evaluates (the angle computation may live in a helper)
+    scope, work = [], [l]
+    while work:
+        f = work.pop()
+        if f in scope:
+            continue
+        scope.append(f)
+        for n in ast.walk(f):
+            if isinstance(n, ast.Call) and isinstance(n.func, ast.Attribute) and isinstance(n.func.value, ast.Name) and n.func.value.id == "self" \
+                    and n.func.attr in cls.methods:
+                work.append(cls.methods[n.func.attr])
+    for n in (w for f in scope for w in ast.walk(f)):
         if isinstance(n, ast.Assign) and len(n.targets) == 1:
             t = n.targets[0]
             if isinstance(t, ast.Name):
